@@ -65,7 +65,7 @@ def write_tree(node):
 
 # ------------------------------------------------------------------ program generator
 FEATURES = ["bound_param", "kind_param", "init_ref", "dtype", "import", "args", "module", "function",
-            "modkind", "save_init", "call", "section", "iface", "iface_imp"]
+            "modkind", "save_init", "call", "section", "iface", "iface_imp", "modloop", "saveloop", "argloop"]
 
 
 def gen_source(rng, k):
@@ -83,7 +83,7 @@ def gen_source(rng, k):
     feats = set(f for f in FEATURES if rng.random() < 0.45)
     if "save_init" in feats:
         feats.add("init_ref")
-    if feats & {"modkind", "function", "call", "iface", "iface_imp"}:
+    if feats & {"modkind", "function", "call", "iface", "iface_imp", "modloop"}:
         feats.add("module")
     decl, body, pre = [], [], []
     args = []
@@ -136,6 +136,17 @@ def gen_source(rng, k):
         body.append("t = f2(s)")
     if "iface" in feats:
         body.append("call gen(s)")
+    # loop variables / references of every interface kind declared in a copied scope
+    if "modloop" in feats:                                  # module variable (DefaultModuleInterface)
+        body += ["do gi = 1, 3", "  gacc = gacc + gi", "end do"]
+    if "saveloop" in feats:                                 # saved local (StaticInterface)
+        decl.append("integer, save :: si")
+        decl.append("integer, save :: sacc")
+        body += ["do si = 1, 2", "  sacc = sacc + si + s", "end do"]
+    if "argloop" in feats:                                  # dummy argument (ArgumentInterface)
+        args = args + ["ia"]
+        decl.append("integer, intent(inout) :: ia")
+        body += ["do ia = 1, 2", "  s = s + ia", "end do"]
     body_lines = mf.stmts_to_fortran(stmts) + ["  " + b for b in body]
     rng.shuffle(body)
     head = "subroutine s%d(%s)" % (k, ", ".join(args))
@@ -149,6 +160,8 @@ def gen_source(rng, k):
         mod.append("  use iext%d, only: ext_a, ext_b" % k)
     if "modkind" in feats:
         mod += ["  integer, parameter :: wp = 4", "  integer(kind=wp) :: g"]
+    if "modloop" in feats:
+        mod += ["  integer :: gi", "  integer :: gacc"]
     if "iface" in feats:                                    # generic interface over module procedures
         mod += ["  interface gen", "    module procedure :: sub2, sub3", "  end interface gen"]
     if "iface_imp" in feats:                                # ... and over imported procedures
@@ -228,6 +241,9 @@ def build_api_program(rng, k):
     loc = ht.new_symbol("LocTmp", symbol_type=S.DataSymbol, datatype=S.INTEGER_TYPE)
     helper.addchild(N.Assignment.create(N.Reference(loc), N.Reference(y)))
     helper.addchild(N.Assignment.create(N.Reference(y), _add(N.Reference(loc), _lit(1))))
+    if rng.random() < 0.6:                                  # a dummy argument used as loop variable
+        helper.addchild(N.Loop.create(y, _lit(1), _lit(2), _lit(1),
+                                      [N.Assignment.create(N.Reference(loc), _add(N.Reference(loc), N.Reference(y)))]))
     hsym = ct.new_symbol("HelperSub", symbol_type=S.RoutineSymbol)
     helper2 = N.Routine.create("Helper_Two", S.SymbolTable(), [])
     z = S.DataSymbol("zArg", S.REAL_TYPE, interface=S.ArgumentInterface(S.ArgumentInterface.Access.READWRITE))
@@ -262,6 +278,14 @@ def build_api_program(rng, k):
     main.addchild(N.IfBlock.create(
         N.BinaryOperation.create(N.BinaryOperation.Operator.GT, N.Reference(tmp), _lit(2)),
         [N.Assignment.create(N.Reference(q), N.Reference(tmp))], [N.Assignment.create(N.Reference(q), _lit(0))]))
+    if rng.random() < 0.6:                                  # a module variable used as loop variable
+        gidx = ct.new_symbol("gIdx", symbol_type=S.DataSymbol, datatype=S.INTEGER_TYPE)
+        main.addchild(N.Loop.create(gidx, _lit(1), _lit(3), _lit(1),
+                                    [N.Assignment.create(N.Reference(gcount), _add(N.Reference(gcount), N.Reference(gidx)))]))
+    if rng.random() < 0.5:                                  # a saved (static) local used as loop variable
+        sidx = mt.new_symbol("sIdx", symbol_type=S.DataSymbol, datatype=S.INTEGER_TYPE, interface=S.StaticInterface())
+        main.addchild(N.Loop.create(sidx, _lit(1), _lit(2), _lit(1),
+                                    [N.Assignment.create(N.Reference(tmp), _add(N.Reference(tmp), N.Reference(sidx)))]))
     main.addchild(N.Call.create(hsym, [N.Reference(tmp)]))
     main.addchild(N.Assignment.create(N.Reference(gcount), N.Reference(q)))
     cont.addchild(main)
@@ -907,6 +931,9 @@ def classify(touched, b_root, ser):
 
 
 # ------------------------------------------------------------------ edits
+RET_RENAMED_KEY = "Routine.copy/raises-KeyError-after-rename-of-return-symbol"
+
+
 class Edit:
     def __init__(self, kind, desc, touched, inplace=False):
         self.kind, self.desc, self.touched, self.inplace = kind, desc, touched, inplace
@@ -941,6 +968,9 @@ def random_edit(rng, a, allow_inplace, counter, only=None):
                        for r in g.routines if r.symbol in c2.symbol_table.symbols]
             if members and rng.random() < 0.4:              # a specific routine of a generic interface
                 sc, s = rng.choice(members)
+            if only is not None and any(r.return_symbol is s for r in a.walk(N.Routine)):
+                return None     # (before a copy: renaming a function's return symbol makes every later copy() and
+                #                 hence FortranWriter raise — known finding RET_RENAMED_KEY, replayed as a witness)
             new = rng.choice(["%s_r%d", "%s_R%d", "X%s%d"]) % (s.name[:6], uid)
             old = s.name
             sc.symbol_table.rename_symbol(s, new)           # (re-inserts the symbol at the END of the table)
@@ -1086,6 +1116,9 @@ WITNESSES = [
     ("TypedSymbol.copy/datatype-object-shared",
      "subroutine s()\n type :: tt\n  integer :: j\n end type\n type(tt) :: x\n x%j = 1\nend subroutine\n",
      ("structadd", "tt")),
+    (RET_RENAMED_KEY,
+     "module m\ncontains\n integer function f2(a)\n  integer, intent(in) :: a\n  f2 = a + 1\n end function f2\nend module m\n",
+     ("rename_ret", "f2", "f2_ret")),
     ("Routine.__eq__/return-symbol-compared-by-identity",
      "integer function f(a)\n integer, intent(in) :: a\n f = a + 1\nend function\n",
      ("eq",)),
@@ -1116,6 +1149,21 @@ def replay_witnesses(ctx):
     for key, src, ed in WITNESSES:
         t = FortranReader().psyir_from_source(src)
         r = t.walk(N.Routine)[0]
+        if ed[0] == "rename_ret":
+            try:
+                r.symbol_table.rename_symbol(r.symbol_table.lookup(ed[1]), ed[2])
+                t.copy()
+                ctx.hist("witness", "rename-of-return-symbol:no-longer-reproduces")
+            except KeyError as e:
+                ctx.hist("witness", "rename-of-return-symbol:reproduces")
+                ctx.finding(key, "copy() raises KeyError after rename_symbol() of a function's return symbol",
+                            {"source": src, "edit": "function table: rename_symbol(lookup('f2'), 'f2_ret')",
+                             "observed": "copy() raises KeyError: " + str(e)[:120], "expected": "a copy",
+                             "replay": "t = FortranReader().psyir_from_source(source); r = t.walk(Routine)[0]; "
+                                       "r.symbol_table.rename_symbol(r.symbol_table.lookup('f2'), 'f2_ret'); t.copy()"})
+            except Exception:                                   # noqa  (rename refused: fixed differently)
+                ctx.hist("witness", "rename-of-return-symbol:refused")
+            continue
         try:
             c = r.copy()
         except Exception as e:                                  # noqa
@@ -1191,7 +1239,11 @@ def run_case(ctx, rng, src, feats, prog_idx, tree, ser, n, results, counter):
     try:
         c = n.copy()
     except Exception as e:                                      # noqa
-        results["direct"].append(("Node.copy/raises:%s" % type(e).__name__,
+        key = "Node.copy/raises:%s" % type(e).__name__
+        if isinstance(e, KeyError) and any(r.return_symbol is not None and r.name.lower() not in r.symbol_table._symbols
+                                           for r in n.walk(N.Routine)):
+            key = RET_RENAMED_KEY       # rename_symbol was accepted on a function's return symbol: name <-> table broken
+        results["direct"].append((key,
                                   "copy() raises on a valid tree: " + str(e).split("\n")[0][:300], src, kname, pos,
                                   results["decor_seed"][prog_idx]))
         ctx.count((hashlib.sha1(src.encode()).hexdigest(), pos), nontrivial=False)
@@ -1329,7 +1381,8 @@ def run(ctx):
         "with mixed-case temporaries / loop counters / tags / case-only clashes created through the PSyIR API; "
         "every third program is a module built entirely through the API (mixed / upper-case data, routine and "
         "container symbols, a generic interface whose member may be declared after it); reader modules may hold "
-        "generic interfaces over module procedures and over imported procedures; every tree then receives 0-5 "
+        "generic interfaces over module procedures and over imported procedures; loop variables and references also "
+        "target module variables, saved locals and dummy arguments declared in the copied scope; every tree then receives 0-5 "
         "random edits BEFORE any copy (rename_symbol, remove+add, new/shadow symbol, detach, re-target: table "
         "orders the frontend never produces); every Routine / "
         "Container plus sampled Loop/IfBlock/Schedule/Assignment/expression subtrees is copied with the real copy(); "
